@@ -399,6 +399,12 @@ def run_history(ctx, case):
         else:
             o, m = run.choose(rng, pol if pol != "mixed" else rng.choice(gen.POLICIES))
         run.dispatch(o, m)
+        if rng.random() < 0.2 and not run.done() and d.available_operations():
+            # rules are clients of the observers too (the observer-based rule shares the subscribed
+            # DurationObserver): evaluating one must not change what the observers report
+            from job_shop_lib.dispatching.rules import observer_based_most_work_remaining_rule
+            observer_based_most_work_remaining_rule(d)
+            ctx.count("observer_based_rule_evaluations")
         now, avail = state()
         clock_after_dispatch[o] = now
         if r.ongoing(now):
